@@ -30,10 +30,13 @@ def _v(x):
     return (t, repr(x))
 '''
 
-BASES = ["1", "'a'", "(1,)", "0.0", "None", "{'k': 1, 'j': 2}", "set(['x', 'y', 'z'])"]
+BASES = ["1", "'a'", "(1,)", "0.0", "None", "{'k': 1, 'j': 2}", "set(['x', 'y', 'z'])", "{'g': 0.5, 1: 'x', None: 'd'}", "set(['x', 1, None])"]
 PARTNERS = {"1": ["1.0", "True", "'1'"], "'a'": ["b'a'", "'b'"], "(1,)": ["[1]", "(1.0,)"], "0.0": ["-0.0", "0"], "None": ["0", "False"],
-            "{'k': 1, 'j': 2}": ["{'k': 1, 'j': 2.0}", "{'k': 1}", "[('k', 1), ('j', 2)]"], "set(['x', 'y', 'z'])": ["frozenset(['x', 'y', 'z'])", "['x', 'y', 'z']"]}
-REBUILT = {"{'k': 1, 'j': 2}": "{'j': 2, 'k': 1}", "set(['x', 'y', 'z'])": "set(['z', 'y', 'x'])"}      # same value, other insertion order
+            "{'k': 1, 'j': 2}": ["{'k': 1, 'j': 2.0}", "{'k': 1}", "[('k', 1), ('j', 2)]"], "set(['x', 'y', 'z'])": ["frozenset(['x', 'y', 'z'])", "['x', 'y', 'z']"],
+            # keys / elements that cannot be ordered together (the order-insensitive fallback of the hasher)
+            "{'g': 0.5, 1: 'x', None: 'd'}": ["{'g': 0.5, 1: 'x', None: 'e'}", "{'g': 0.5, 1: 'x'}"], "set(['x', 1, None])": ["frozenset(['x', 1, None])", "set(['x', 1])"]}
+REBUILT = {"{'k': 1, 'j': 2}": "{'j': 2, 'k': 1}", "set(['x', 'y', 'z'])": "set(['z', 'y', 'x'])",
+           "{'g': 0.5, 1: 'x', None: 'd'}": "{None: 'd', 1: 'x', 'g': 0.5}", "set(['x', 1, None])": "set([None, 1, 'x'])"}      # same value, other insertion order
 
 
 def sig_source(name, sig, drop=(), method=False, is_async=False):
@@ -173,6 +176,12 @@ def build_program(states, rng, per_sig=6, kinds=("function",), max_sigs=None):
         if kind == "function" and n % 4 == 1:
             st = shapes[0]; a, k = call_exprs(st, names, val_for(st))
             for store in ("_A", "_B"):
+                add(dict(base, args=a, kwargs=k, mode="call", store=store), role="call", cls=(n, "store" + store, image(st)))
+                add(dict(base, args=a, kwargs=k, mode="check", store=store), role="check_after", cls=(n, "store" + store, image(st)))
+        # one relative location used from two working directories: same spelling, two directories
+        if kind == "function" and n % 4 == 2:
+            st = shapes[0]; a, k = call_exprs(st, names, val_for(st))
+            for store in ("_REL@A", "_REL@B"):
                 add(dict(base, args=a, kwargs=k, mode="call", store=store), role="call", cls=(n, "store" + store, image(st)))
                 add(dict(base, args=a, kwargs=k, mode="check", store=store), role="check_after", cls=(n, "store" + store, image(st)))
     return "\n\n".join(src), steps, exp
